@@ -140,6 +140,16 @@ def interfering(h):
             else:
                 yield from orig_iterate(v)
         vm.iterate = iterate
+        # ... and between two iterations of a loop over a child stream the consumer had control as well: at an ARBITRARY iteration
+        # (the loop rule) the scratch state is whatever other evaluations left (a node shared between two positions of one query is
+        # evaluated in the other position while this generator is suspended)
+        orig_havoc = vm.havoc
+
+        def havoc(fr, body_nodes, spec, name):
+            orig_havoc(fr, body_nodes, spec, name)
+            if depth[0] == 1:
+                havoc_scratch(vm, counter, names)
+        vm.havoc = havoc
         h.fn(vm)
 
     fin = None
